@@ -316,7 +316,8 @@ func H_C02_Chain(shape int) {
 		u := c02MakeUnit(sh.unit[i], base, row, "u"+string([]byte{byte('0' + i)}))
 		if sh.comb[i] == 1 && !acc.have {
 			// every earlier unit was empty: the chain effectively starts with Or (outside C02)
-			verifrt.Assume(false)
+			verifrt.Reach("outside-claim:leading-or")
+			return
 		}
 		db = c02Apply(db, sh.comb[i], u, acc)
 	}
